@@ -215,6 +215,18 @@ def model (line : String) : String :=
       s!"{showOK recs (p.length + 1)} fa={showIds (failedA recs)} fg={showIds (failedG recs)}"
     | _, _, _, _, _ => "bad-case"
   | "job" :: _ :: ops => (jobRun ops).getD "bad-case"
+  | ["lv", mode, k, a] =>
+    match k.toNat?, a.toNat? with
+    | some k, some a =>
+      if mode ≠ "s" && mode ≠ "c" then "bad-case" else
+      -- per (re)request: one NodeLeft, k duplicates while in flight, then the run (the first a abort)
+      let round := fun (abort : Bool) => List.replicate (k + 1) LifeAct.nodeLeft ++ [if abort then LifeAct.runAbort else LifeAct.runOK]
+      let acts := ((List.range a).flatMap fun _ => round true) ++ round false
+      let d := lifeRun (Life.init (mode = "s")) acts
+      -- every aborted run lists the (unknown-type) actor; so does the final run, which cannot respawn it
+      let failed := if a = 0 then 0 else a + 1
+      s!"runs={d.runs} started={d.announced} failed={failed} job={if d.job then "held" else "released"}"
+    | _, _ => "bad-case"
   | ["nl", k, h] =>
     match k.toNat?, h.toNat? with
     | some k, some h =>
@@ -297,6 +309,17 @@ def judge (line : String) : String :=
         | none => "ok"
       | none => "bad unparsable output: " ++ o
     | _, _, _, _, _ => "ok"
+  | ["lv", _, _, a] =>
+    if o.startsWith "timeout" then "ok" else
+    let ws := words o
+    match a.toNat?, (field ws "runs").bind String.toNat?, (field ws "started").bind String.toNat?, (field ws "failed").bind String.toNat?, field ws "job" with
+    | some a, some runs, some st, some failed, some job =>
+      if runs ≠ a + 1 then s!"bad {runs} relocations were run for {a + 1} request(s) of one departure (duplicates must start nothing, every re-request after an abort exactly one)"
+      else if job ≠ "released" then "bad relocation job still registered after the last run finished"
+      else if failed > runs then "bad more RelocationFailed events than relocation runs"
+      else if st ≠ runs then s!"bad {st} RelocationStarted events for {runs} relocation(s) actually started"
+      else "ok"
+    | _, _, _, _, _ => "bad unparsable output: " ++ o
   | ["nl", _, _] =>
     let ws := words o
     match (field ws "started").bind String.toNat?, field ws "job", (field ws "del").bind String.toNat? with
